@@ -35,6 +35,22 @@ type rulesCase struct {
 	TargetID string            `json:"target_id"`
 	TargetK  int               `json:"target_k"`
 	Lane     string            `json:"lane"`
+	Prefix   string            `json:"prefix,omitempty"` // three-digit file prefix, default 932
+}
+
+func (c *rulesCase) prefix() string {
+	if c.Prefix == "" {
+		return "932"
+	}
+	return c.Prefix
+}
+
+// path of the rules file below the root.
+func (c *rulesCase) path() string {
+	if c.prefix() == "932" {
+		return rulesPath
+	}
+	return "rules/REQUEST-" + c.prefix() + "-APPLICATION-ATTACK-GENERIC.conf"
 }
 
 const rulesPath = "rules/REQUEST-932-APPLICATION-ATTACK-RCE.conf"
@@ -45,7 +61,7 @@ func (c *rulesCase) render(override map[string]string) (string, map[string]int) 
 	pos := map[string]int{}
 	lines = append(lines, "# ------------------------------------------------------------------------",
 		"# OWASP CRS ver.4.0.0", "# Copyright (c) 2021-2024 CRS project. All rights reserved.", "",
-		"SecRule TX:DETECTION_PARANOIA_LEVEL \"@lt 1\" \"id:932011,phase:1,pass,nolog,skipAfter:END-REQUEST-932\"", "")
+		"SecRule TX:DETECTION_PARANOIA_LEVEL \"@lt 1\" \"id:"+c.prefix()+"011,phase:1,pass,nolog,skipAfter:END-REQUEST-"+c.prefix()+"\"", "")
 	for _, r := range c.Rules {
 		lines = append(lines, r.Before...)
 		for k, op := range r.Chain {
@@ -77,7 +93,7 @@ func (c *rulesCase) render(override map[string]string) (string, map[string]int) 
 		}
 		lines = append(lines, "")
 	}
-	lines = append(lines, `SecMarker "END-REQUEST-932"`)
+	lines = append(lines, `SecMarker "END-REQUEST-`+c.prefix()+`"`)
 	nl := "\n"
 	if c.CRLF {
 		nl = "\r\n"
